@@ -1,14 +1,28 @@
 """Shared implementation-side operations on collections (classification, membership, editing)."""
 
 
-def _coll(gens, n=None):
+def _coll(gens, n=None, routes=None):
+    """routes: build the members as objects reached through these public routes (mk_string), then the collection through
+    its own public routes ('@build': empty collection filled by append/insert)"""
     from paulie import get_pauli_string
+    if routes and n is None and gens:
+        from paulie import PauliStringCollection
+        members = [mk_string(s, routes[i % len(routes)]) for i, s in enumerate(gens)]
+        if "@build" in routes:
+            c = PauliStringCollection([])
+            for i, m in enumerate(members):
+                if i % 3 == 2:
+                    c.insert(len(c) // 2, m)
+                else:
+                    c.append(m)
+            return c      # same set of strings; order changed and duplicates dropped by the collection itself
+        return PauliStringCollection(members)
     return get_pauli_string(list(gens), n=n)
 
 
-def classify(gens, n=None, record=False):
+def classify(gens, n=None, record=False, routes=None):
     """Everything the classification of a collection exposes, as text."""
-    c = _coll(gens, n)
+    c = _coll(gens, n, routes)
     rec = None
     if record:
         from paulie import RecordGraph
